@@ -94,6 +94,23 @@ func init() {
 			fmt.Fprintf(w, "%s", c18Str(s))
 		}
 		fmt.Fprintf(w, "].\n")
+		// manufactured contexts: (where, call, usage)
+		fmt.Fprintf(w, "Definition c18_fresh_contexts : list (string * string * string) := [")
+		for i, f := range fa.Fresh {
+			if i > 0 {
+				fmt.Fprintf(w, ";")
+			}
+			fmt.Fprintf(w, "\n  (%s, %s, %s)", c18Str(fmt.Sprintf("%s:%s:%d", f.File, f.Func, f.Line)), c18Str(f.Call), c18Str(f.Usage))
+		}
+		fmt.Fprintf(w, "].\n")
+		fmt.Fprintf(w, "Definition c18_internal_rebinds : list string := [")
+		for i, s := range fa.Rebinds {
+			if i > 0 {
+				fmt.Fprintf(w, "; ")
+			}
+			fmt.Fprintf(w, "%s", c18Str(s))
+		}
+		fmt.Fprintf(w, "].\n")
 		return fa, nil
 	}
 }
